@@ -10,6 +10,7 @@ ASSUMPTIONS = ASSUME_PY + ["widgets.py / containers.py write no module-level sta
 RULE = ("seeded random widget trees (depth <= 3: text, separator, center, checkbox, window, row/column list containers with 0..11 items, 0..4 columns, "
         "forced/unforced width, numbering patterns and offsets) with sequences of 1..5 render(w) / add / add-to-a-nested-container operations at varying and repeated widths on the kept object; "
         "the oracle renders a freshly built equal tree for every render; non-trivial = >= 2 renders on one object with a container inside")
+LEAN_MODULES = ['C16', 'C16b']
 
 
 def generate(rnd, tier):
